@@ -238,6 +238,14 @@ impl Check for C02 {
             });
         }
         let _ = dst_cols;
+        // long strips (spans and masks beyond 256 / 1024 / 2048 / 8192 pixels)
+        let hmodes = [BlendMode::SrcOver, BlendMode::Src, BlendMode::Clear, BlendMode::DstIn];
+        run.bound("wide-tall", format!("the long-strip scenes shared with C03 (300x2, 2x300, 8200x2, 2x8200; far-end draws, full-length sliver fill, full-length mask) x {} modes", hmodes.len()));
+        run.par(hmodes.len() * 4, |i, l| {
+            for scene in super::c03::wide_scenes(hmodes[i / 4], i % 2 == 1, if (i / 2) % 2 == 1 { 8200 } else { 300 }) {
+                run_one(run, 20_000 + i, l, &scene);
+            }
+        });
         super::mixed::explore_mixed(run, "C02", owns, if deep { 5 } else { 4 }, false);
     }
 
